@@ -6,14 +6,18 @@ package main
 
 import (
 	"bufio"
+	"context"
 	"encoding/base64"
 	"encoding/json"
+	"fmt"
+	lime "github.com/takenet/lime-go"
 	"io"
 	"os"
 	"os/exec"
 	"strings"
 	"sync"
 	"time"
+	"verifharness/memconn"
 )
 
 func wsDecodeChild(args []string) {
@@ -144,4 +148,78 @@ func (w *wsIsolated) decode(b []byte) wsRes {
 		w.cmd = nil
 		return wsRes{Tag: "unsupported", Msg: "child did not answer"}
 	}
+}
+
+// c02ConcurrentChild: several TCP transports receive, at the same time, envelopes whose documents have media types
+// nobody has seen before (decoding untrusted bytes must not write to state shared between connections: a data race
+// on a map ends the process with a fatal error that nothing can recover).  Prints "ok <n>" when it survived.
+func c02ConcurrentChild(args []string) {
+	const conns, per = 8, 400
+	var wg sync.WaitGroup
+	total := int64(0)
+	var mu sync.Mutex
+	for c := 0; c < conns; c++ {
+		wg.Add(1)
+		go func(c int) {
+			defer wg.Done()
+			cm, sm := memconn.Pipe(0)
+			t := lime.NewTCPTransportOverConn(sm, true, nil)
+			go func() {
+				for i := 0; i < per; i++ {
+					suffix := "+json"
+					content := `{"a":1}`
+					if i%3 == 0 {
+						suffix, content = "", `"x"`
+					}
+					_, _ = cm.Write([]byte(fmt.Sprintf(`{"id":"m","type":"application/vnd.never.seen.c%dn%d%s","content":%s}`+"\n", c, i, suffix, content)))
+				}
+			}()
+			n := 0
+			for i := 0; i < per; i++ {
+				ctx, cancel := context.WithTimeout(context.Background(), 2*time.Second)
+				_, err := t.Receive(ctx)
+				cancel()
+				if err == nil {
+					n++
+				}
+			}
+			mu.Lock()
+			total += int64(n)
+			mu.Unlock()
+			_ = cm.Close()
+			_ = sm.Close()
+		}(c)
+	}
+	wg.Wait()
+	fmt.Printf("ok %d\n", total)
+}
+
+func init() { childCmds["c02conc"] = c02ConcurrentChild }
+
+// runConcurrentDecoders runs the child; survived reports whether it printed its result.
+func runConcurrentDecoders() (survived bool, detail string) {
+	cmd := exec.Command(os.Args[0], "child", "c02conc")
+	cmd.Env = os.Environ()
+	var out, errb strings.Builder
+	cmd.Stdout, cmd.Stderr = &out, &errb
+	done := make(chan error, 1)
+	if err := cmd.Start(); err != nil {
+		return true, "could not start: " + err.Error()
+	}
+	go func() { done <- cmd.Wait() }()
+	select {
+	case <-done:
+	case <-time.After(60 * time.Second):
+		_ = cmd.Process.Kill()
+		<-done
+		return true, "timed out"
+	}
+	if strings.HasPrefix(out.String(), "ok ") {
+		return true, strings.TrimSpace(out.String())
+	}
+	msg := errb.String()
+	if len(msg) > 300 {
+		msg = msg[:300]
+	}
+	return false, msg
 }
